@@ -27,6 +27,11 @@ var replacements = map[string]string{
 	"encoding/asn1.Unmarshal":           "M_Asn1Unmarshal",
 	"crypto/x509.ParsePKIXPublicKey":    "M_ParsePKIXPublicKey",
 	"crypto/x509.MarshalPKIXPublicKey":  "M_MarshalPKIXPublicKey",
+	"crypto/aes.NewCipher":              "M_AesNewCipher",
+	"crypto/cipher.NewGCM":              "M_NewGCM",
+	"crypto/cipher.NewCTR":              "M_NewCTR",
+	"crypto/cipher.NewCBCEncrypter":     "M_NewCBCEncrypter",
+	"crypto/cipher.NewCBCDecrypter":     "M_NewCBCDecrypter",
 }
 
 // InstallModels wires the replacement table and model globals. It must be
